@@ -30,6 +30,9 @@ pub struct Scenario {
     pub via_uci: bool,
     /// earlier searches in the same engine (fills TT/killers/history), each (depth)
     pub warmup_depths: Vec<u8>,
+    /// via_uci only: the budget is given as clocks (`go wtime W btime W winc 0 binc 0`, W
+    /// chosen so that the engine's own allocation is the intended budget) instead of movetime
+    pub clocked: bool,
     /// the warm-up searches are clock-limited too (with a budget they never reach), so that
     /// whatever the timer keeps between searches is exercised
     pub warmup_timed: bool,
@@ -40,7 +43,7 @@ impl Scenario {
         json!({"fen": self.fen, "depth": self.depth, "key_seed": self.key_seed, "forced": self.forced,
             "cost_node_ns": self.cost_node_ns, "cost_read_ns": self.cost_read_ns, "limit_ms": self.limit_ms,
             "stalls": self.stalls.iter().map(|(a, b)| json!([a, b])).collect::<Vec<_>>(),
-            "via_uci": self.via_uci, "warmup_depths": self.warmup_depths, "warmup_timed": self.warmup_timed})
+            "via_uci": self.via_uci, "warmup_depths": self.warmup_depths, "warmup_timed": self.warmup_timed, "clocked": self.clocked})
     }
     pub fn from_json(v: &Value) -> Option<Scenario> {
         Some(Scenario {
@@ -61,6 +64,7 @@ impl Scenario {
                 .map(|a| a.iter().filter_map(|x| x.as_u64().map(|d| d as u8)).collect())
                 .unwrap_or_default(),
             warmup_timed: v["warmup_timed"].as_bool().unwrap_or(false),
+            clocked: v["clocked"].as_bool().unwrap_or(false),
         })
     }
 }
@@ -116,7 +120,12 @@ pub fn run_scenario(bench: &mut Bench, sc: &Scenario) -> ScenarioOutcome {
         }
         st.push_line(&format!("position fen {}", sc.fen));
         let ms = if sc.forced.is_some() { HUGE_LIMIT.as_millis() as u64 } else { sc.limit_ms };
-        if sc.depth < 64 {
+        if sc.clocked {
+            // (W - 5000) / 25 is the engine's allocation today; whatever it allocates, it has
+            // to arm it before it starts working
+            let w = ms.saturating_mul(25).saturating_add(5000);
+            st.push_line(&format!("go wtime {} btime {} winc 0 binc 0", w, w));
+        } else if sc.depth < 64 {
             // both orders occur
             if sc.key_seed % 2 == 0 {
                 st.push_line(&format!("go depth {} movetime {}", sc.depth, ms));
@@ -148,7 +157,12 @@ pub fn run_scenario(bench: &mut Bench, sc: &Scenario) -> ScenarioOutcome {
         // (a depth cap does not switch the clock off); an engine may arm less (overhead)
         if let Some(rec) = &target_rec {
             let ms = if sc.forced.is_some() { HUGE_LIMIT.as_millis() as u64 } else { sc.limit_ms };
+            // work done on the clock before the deadline exists counts against "promptly" too
+            if rec.pre_nodes > B {
+                out.violations.push(("work_before_arming_the_deadline".into(), format!("{} nodes entered after the go command and before the timer was started", rec.pre_nodes)));
+            }
             match rec.limit {
+                Some(_) if sc.clocked => {}
                 None => out.violations.push(("no_deadline_armed".into(), format!("go with movetime {} started a search without a time limit", ms))),
                 Some(l) if l.as_millis() as u64 > ms => out.violations.push(("deadline_later_than_movetime".into(), format!("go with movetime {} armed a limit of {} ms", ms, l.as_millis()))),
                 _ => {}
@@ -210,7 +224,11 @@ pub fn run_scenario(bench: &mut Bench, sc: &Scenario) -> ScenarioOutcome {
         best
     });
     let Some(rec) = target_rec else {
-        out.violations.push(("crash".into(), format!("no search was started: {:?}", outcome)));
+        if sc.via_uci && matches!(outcome, Outcome::Aborted(Abort::NodeCap)) {
+            out.violations.push(("work_before_arming_the_deadline".into(), "the go command ran into the step cap without ever starting the timer".into()));
+        } else {
+            out.violations.push(("crash".into(), format!("no search was started: {:?}", outcome)));
+        }
         return out;
     };
     out.overshoot = rec.nodes_after_deadline;
@@ -325,6 +343,11 @@ pub fn shrink_value(v: &Value) -> Vec<Value> {
     if sc.warmup_timed {
         let mut n = sc.clone();
         n.warmup_timed = false;
+        out.push(n.to_json());
+    }
+    if sc.clocked {
+        let mut n = sc.clone();
+        n.clocked = false;
         out.push(n.to_json());
     }
     if !sc.stalls.is_empty() {
@@ -469,6 +492,7 @@ pub fn run(ctx: &Ctx) -> i32 {
                 via_uci: false,
                 warmup_depths: vec![],
                 warmup_timed: false,
+                clocked: false,
             };
             // (a) forced expiry: dense over the first reads, then log-uniform up to 20 000
             let dense = per_pos / 3;
@@ -487,6 +511,9 @@ pub fn run(ctx: &Ctx) -> i32 {
                     // a depth cap far beyond what the budget allows, next to the clock
                     if rng.chance(1, 2) {
                         s.depth = *rng.pick(&[20u8, 40, 63]);
+                    } else if rng.chance(1, 2) {
+                        s.clocked = true;
+                        s.depth = 64;
                     }
                 }
                 if rng.chance(1, 4) && !is_explosive {
@@ -531,6 +558,9 @@ pub fn run(ctx: &Ctx) -> i32 {
                     s.via_uci = true;
                     if rng.chance(1, 2) {
                         s.depth = *rng.pick(&[20u8, 40, 63]);
+                    } else if rng.chance(1, 2) {
+                        s.clocked = true;
+                        s.depth = 64;
                     }
                 }
                 if rng.chance(1, 5) && !is_explosive {
@@ -593,7 +623,7 @@ pub fn run(ctx: &Ctx) -> i32 {
     });
     let ev = Evidence {
         level: "fault_enumeration",
-        rule: format!("Positions: one third explosive (constructed promotion races and seeded ones, kept when a depth-1 search exceeds {} nodes), one sixth middlegame positions with a single legal move, the rest seeded playout positions. Per position: forced expiry at every read 1..N/3, log-uniform expiry reads up to 20 000, expiry reads shortly before the end of each iteration of an uninterrupted probe (the last root moves' subtrees), and cost-model runs (per-node cost 1us..5ms, budget 1..30 000 nodes, optional stall jump) in which the deadline passes at a node rather than at a poll; depths 1, 2, 3 and 64; one sixth through `go movetime T [depth D]` (both token orders, D from 1 to 63) and the real uci_loop, where the limit armed on the timer must exist and not exceed T; a quarter of the sampled runs after one or two earlier depth 2-4 searches (clock-limited or not) on the same engine. Oracle: at most {} nodes entered after the virtual clock first shows start+limit (runs are cut at {} by the step cap), plus a time bound in stall-free runs. A case = a scenario in which the deadline passed before the search ended.", 20 * B, B, 64 * B),
+        rule: format!("Positions: one third explosive (constructed promotion races and seeded ones, kept when a depth-1 search exceeds {} nodes), one sixth middlegame positions with a single legal move, the rest seeded playout positions. Per position: forced expiry at every read 1..N/3, log-uniform expiry reads up to 20 000, expiry reads shortly before the end of each iteration of an uninterrupted probe (the last root moves' subtrees), and cost-model runs (per-node cost 1us..5ms, budget 1..30 000 nodes, optional stall jump) in which the deadline passes at a node rather than at a poll; depths 1, 2, 3 and 64; one sixth through `go movetime T [depth D]` (both token orders, D from 1 to 63) and the real uci_loop, where the limit armed on the timer must exist and not exceed T, or `go wtime W btime W` where it must exist; in both at most 4096 nodes may be entered between the go command and the start of the timer; a quarter of the sampled runs after one or two earlier depth 2-4 searches (clock-limited or not) on the same engine. Oracle: at most {} nodes entered after the virtual clock first shows start+limit (runs are cut at {} by the step cap), plus a time bound in stall-free runs. A case = a scenario in which the deadline passed before the search ended.", 20 * B, B, 64 * B),
         extra: {
             let mut m = serde_json::Map::new();
             m.insert("bound_B_nodes".into(), json!(B));
